@@ -130,7 +130,7 @@ impl Property for C04 {
          oracle = exact simultaneous composition; reference evaluator with topological dependency evaluation; non-trivial = >=2 replacements with one of degree>=1, or chain length>=2, or cyclic/dangling graph; distinct = sha256(case)"
     }
     fn required_labels(&self) -> Vec<String> {
-        ["mode=function", "mode=instance", "mode=graph", "mode=log-encode", "simultaneous-overlap", "chain", "cycle", "dangling", "self-loop", "removed-constraint", "all-orders-seen", "two-substitute-calls", "n=5", "regime=general", "regime=dyadic"]
+        ["mode=function", "mode=instance", "mode=graph", "mode=log-encode", "simultaneous-overlap", "chain", "cycle", "dangling", "self-loop", "removed-constraint", "all-orders-seen", "two-substitute-calls", "n=5", "regime=general", "regime=dyadic", "renaming-map", "renaming-target-is-a-key"]
             .iter()
             .map(|s| s.to_string())
             .collect()
@@ -181,8 +181,26 @@ impl C04 {
         let mut repl: BTreeMap<u64, v1::Function> = BTreeMap::new();
         let mut overlap = false;
         let mut deg1 = false;
-        for k in &keys {
-            let r = gen_replacement(t, &ids, regime, ctx);
+        // a pure renaming: every replacement is a bare variable; targets may be keys themselves (swap, cyclic shift,
+        // renumbering 1 -> 2, 2 -> 3, ...)
+        let renaming = t.p(40);
+        if renaming {
+            ctx.label("renaming-map");
+        }
+        for (ki, k) in keys.iter().enumerate() {
+            let r = if renaming {
+                let target = match t.choice(3) {
+                    0 => keys[(ki + 1) % keys.len()],
+                    1 => *t.pick(&keys),
+                    _ => *t.pick(&ids),
+                };
+                if keys.contains(&target) && target != *k {
+                    ctx.label("renaming-target-is-a-key");
+                }
+                crate::mk::flin(crate::mk::linear(vec![(target, 1.0)], 0.0))
+            } else {
+                gen_replacement(t, &ids, regime, ctx)
+            };
             let rids = syntactic_ids(&r);
             if rids.iter().any(|i| keys.contains(i)) {
                 overlap = true;
@@ -666,7 +684,19 @@ impl C04 {
                 if m.is_err() && seen.len() <= 2 {
                     let mut ss = v1::Samples::default();
                     ss.entries.push(crate::mk::samples_entry(state.clone(), vec![0, 7]));
-                    if inst.evaluate_samples(&ss).is_ok() {
+                    // ... also when an earlier sample of the same call does have a value (0.0) for every id
+                    let mut first = state.clone();
+                    for f in deps.values() {
+                        for id in syntactic_ids(f) {
+                            if !deps.contains_key(&id) {
+                                first.entries.entry(id).or_insert(0.0);
+                            }
+                        }
+                    }
+                    let mut ss2 = v1::Samples::default();
+                    ss2.entries.push(crate::mk::samples_entry(first, vec![1]));
+                    ss2.entries.push(crate::mk::samples_entry(state.clone(), vec![2]));
+                    if inst.evaluate_samples(&ss).is_ok() || inst.evaluate_samples(&ss2).is_ok() {
                         return (
                             fail(
                                 "C04/graph/cyclic-or-dangling-accepted-by-evaluate-samples",
